@@ -221,6 +221,10 @@ def emit_cif(atoms: List[dict], null: str = "?", extra_categories: str = "", lab
         if key not in seq:
             counters[a["chain"]] = counters.get(a["chain"], 0) + 1
             seq[key] = counters[a["chain"]]
+    if dialect and dialect.get("label_seq") == "author":
+        # label_seq_id repeats the author number and the insertion code lives in pdbx_PDB_ins_code only, as Biopython,
+        # PyMOL and this library's own write_cif write it (wwPDB files number label_seq_id 1..n instead)
+        seq = {key: key[1] for key in seq}
     alias = bool(dialect and dialect.get("label_alias"))
 
     def lab_atom(nm):
@@ -447,9 +451,15 @@ def st_tables(max_models=3, max_chains=3, max_residues=5, max_atoms=8, altlocs=T
                     break
                 prev_icode = icode
                 kind = draw(st.sampled_from((["nuc", "nuc", "nuc", "odd"] if hetero else ["nuc"]) + (["mod"] if modified else [])))
+                same_as_previous = step == 0 and icode and residues and residues[-1][0] == ch and residues[-1][3] in ("A", "C", "G", "U") and draw(st.booleans())
+                if same_as_previous:
+                    # an insertion-code neighbour of the same kind (G10, G10A): the two differ in the code alone
+                    kind = "nuc"
                 if kind in ("nuc", "mod"):
-                    base = draw(st.sampled_from("ACGU"))
-                    if kind == "mod":
+                    base = residues[-1][3] if same_as_previous else draw(st.sampled_from("ACGU"))
+                    if same_as_previous:
+                        resname = base
+                    elif kind == "mod":
                         # modified / force-field nucleotide names: the atoms of a standard base under a non-standard name
                         resname = draw(st.sampled_from(MODIFIED_NAMES[base]))
                     else:
